@@ -7,7 +7,7 @@ Require Import SB.Model.Base SB.Model.Unicode SB.Model.Geom.
 (** ** [str::lines]: split after every LF; a piece that ended in LF loses it and then one
     CR; a last piece without LF is kept as it is *)
 Definition strip_cr_rev (cur : list Z) : list Z :=
-  match cur with 13 :: r => r | _ => cur end.
+  match cur with c :: r => if c =? 13 then r else cur | [] => cur end.
 Fixpoint lines_aux (s cur : list Z) : list (list Z) :=
   match s with
   | [] => match cur with [] => [] | _ => [rev cur] end
@@ -33,20 +33,27 @@ Fixpoint skip_nq (s : list Z) (pos : nat) : list Z * nat :=   (* none_of(dquote)
 (** (escape_sequence | none_of(dquote)).repeat(0..) where escape_sequence = backslash dquote *)
 Fixpoint char_strings (s : list Z) (pos : nat) : list Z * nat :=
   match s with
-  | 92 :: 34 :: t => char_strings t (S (S pos))
-  | c :: t => if c =? 34 then (s, pos) else char_strings t (S pos)
   | [] => ([], pos)
+  | c :: t =>
+      match t with
+      | d :: t' =>
+          if (c =? 92) && (d =? 34) then char_strings t' (S (S pos))
+          else if c =? 34 then (s, pos) else char_strings t (S pos)
+      | [] => if c =? 34 then (s, pos) else char_strings t (S pos)
+      end
   end.
 Definition escape_string (s : list Z) (pos : nat) : option ((nat * nat) * list Z * nat) :=
   let '(s1, p1) := skip_nq s pos in
   match s1 with
-  | 34 :: s2 =>
-      let '(s3, p3) := char_strings s2 (S p1) in
-      match s3 with
-      | 34 :: s4 => let '(s5, p5) := skip_nq s4 (S p3) in Some ((p1, p3), s5, p5)
-      | _ => None
-      end
-  | _ => None
+  | q :: s2 =>
+      if q =? 34 then
+        let '(s3, p3) := char_strings s2 (S p1) in
+        match s3 with
+        | q' :: s4 => if q' =? 34 then let '(s5, p5) := skip_nq s4 (S p3) in Some ((p1, p3), s5, p5) else None
+        | [] => None
+        end
+      else None
+  | [] => None
   end.
 Fixpoint line_parse_aux (fuel : nat) (s : list Z) (pos : nat) : option (list (nat * nat)) :=
   match escape_string s pos with
@@ -110,8 +117,11 @@ Definition p_sym (c : Z) (s : list Z) : option (list Z) :=
   match s with x :: t => if x =? c then Some t else None | [] => None end.
 Definition p_new_line (s : list Z) : option (list Z) :=
   match s with
-  | 13 :: 10 :: t => Some t
-  | c :: t => if (c =? 13) || (c =? 10) then Some t else None
+  | c :: t =>
+      match t with
+      | d :: t' => if (c =? 13) && (d =? 10) then Some t' else if (c =? 13) || (c =? 10) then Some t else None
+      | [] => if (c =? 13) || (c =? 10) then Some t else None
+      end
   | [] => None
   end.
 Fixpoint p_tag (tg s : list Z) : option (list Z) :=
